@@ -106,7 +106,9 @@ where
             if i > 0 {
                 pw = pw.mul(&xd);
             }
-            if !in_range(&pw, 900) || !in_range(&pw.mul(&d(ci)), 900) || !in_range(&d(ci), 900) {
+            // powers x^i with i >= 2 are formed by the evaluation schemes and must be in range; x itself is an exact
+            // input (a subnormal knot.x is fine as long as the terms are in range)
+            if (i >= 2 && !in_range(&pw, 900)) || !in_range(&pw.mul(&d(ci)), 900) || !in_range(&d(ci), 900) {
                 return false;
             }
         }
@@ -201,13 +203,13 @@ impl Prop for C07 {
         "C07"
     }
     fn rule(&self) -> String {
-        "case = (degree 0..=7 uniform, coefficient vector with cancellation patterns / wide exponents, all ordinates (coefficients and knot.y) times a common power of two 2^k, k=0 in 70% of cases else uniform in ±300, knot (x of any sign and magnitude incl. ±0, y any), evaluation points a,b, segment end; 1 case in 13 plants an exact relation: small-integer data with knot.y equal to plus or minus the indefinite integral at knot.x, or 0). Oracle: indefinite(): constant 0, coefficient i+1 within one ulp of c_i/(i+1) (bit-exact for divisors 1,2,4,8); integral(knot): same non-constant coefficients bit for bit, exact value of the returned polynomial at knot.x within (4(m+2)+2)u(|y|+S_I(x)) of knot.y, and the same through evaluate; F(b)-F(a) (library evaluate, difference taken exactly) vs the 384-bit integral Σc_i(b^(i+1)-a^(i+1))/(i+1); integral(k).derivative() coefficient-wise within one ulp of p; Segment::{indefinite,integral} bit-identical to the piece-level call with end kept. Value clauses judged only when every term is within 2^±900 (else labelled). Non-trivial: degree>=1, >=2 non-zero coefficients, knot != (2,5).".into()
+        "case = (degree 0..=7 uniform, coefficient vector with cancellation patterns / wide exponents, all ordinates (coefficients and knot.y) times a common power of two 2^k, k=0 in 70% of cases else uniform in ±300, knot (x of any sign and magnitude incl. ±0 and subnormals, y any), evaluation points a,b, segment end; 1 case in 13 plants an exact relation: small-integer data with knot.y equal to plus or minus the indefinite integral at knot.x, or 0). Oracle: indefinite(): constant 0, coefficient i+1 within one ulp of c_i/(i+1) (bit-exact for divisors 1,2,4,8); integral(knot): same non-constant coefficients bit for bit, exact value of the returned polynomial at knot.x within (4(m+2)+2)u(|y|+S_I(x)) of knot.y, and the same through evaluate; F(b)-F(a) (library evaluate, difference taken exactly) vs the 384-bit integral Σc_i(b^(i+1)-a^(i+1))/(i+1); integral(k).derivative() coefficient-wise within one ulp of p; Segment::{indefinite,integral} bit-identical to the piece-level call with end kept. Value clauses judged only when every term is within 2^±900 (else labelled). Non-trivial: degree>=1, >=2 non-zero coefficients, knot != (2,5).".into()
     }
     fn cases(&self, tier: Tier) -> u64 {
         tier.pick(800_000, 12_000_000)
     }
     fn strategy(&self, _tier: Tier) -> BoxedStrategy<Case> {
-        let pt = || prop_oneof![3 => gen::moderate(30), 1 => gen::scaled(-60, 60), 1 => Just(0.0), 1 => Just(-0.0)];
+        let pt = || prop_oneof![6 => gen::moderate(30), 2 => gen::scaled(-60, 60), 2 => Just(0.0), 2 => Just(-0.0), 1 => gen::scaled(-1074, -900)];
         let general = (0u8..8, any::<u8>(), pt(), gen::moderate(60), pt(), pt(), gen::any_non_nan(), gen::common_scale(300))
             .prop_flat_map(|(deg, wide, kx, ky, a, b, end, sc)| {
                 let emax = if wide % 4 == 0 { 150 } else { 30 };
